@@ -3,6 +3,7 @@ package main
 import (
 	"fmt"
 	"go/types"
+	"sort"
 	"strings"
 
 	"golang.org/x/tools/go/ssa"
@@ -32,7 +33,7 @@ func registerFieldSorts(prog *ssa.Program) {
 				} else {
 					fieldSorts[key] = srt
 				}
-				if _, isSlice := stt.Field(i).Type().Underlying().(*types.Slice); isSlice {
+				if _, isSlice := stt.Field(i).Type().Underlying().(*types.Slice); isSlice || isStringType(stt.Field(i).Type()) {
 					fieldIsSlice[key] = true
 				}
 				// a struct held by value inside another struct: its fields live under path keys
@@ -144,10 +145,10 @@ func (g *Gen) verify() {
 	// vacuity guard: the precondition must be satisfiable
 	g.obls = append(g.obls, Obl{Name: "requires.cover", Kind: "cover", Pc: st.pc, Goal: "false", Cover: true})
 	if len(c.Lemmas) == 0 || c.Opt("lemmas_only") == "" {
-		g.retReach, g.cpReach = map[int][]string{}, map[int][]string{}
+		g.retReach, g.cpReach, g.loopExit = map[int][]string{}, map[int][]string{}, map[int][]string{}
 		r1, _ := g.execFunc(fn, st.clone(), true, nil)
-		retReach, cpReach := g.retReach, g.cpReach
-		g.retReach, g.cpReach = nil, nil
+		retReach, cpReach, loopExit := g.retReach, g.cpReach, g.loopExit
+		g.retReach, g.cpReach, g.loopExit = nil, nil, nil
 		if c.Inject != "" {
 			g.injective(st, env, r1)
 		}
@@ -166,6 +167,18 @@ func (g *Gen) verify() {
 			}
 			for i, e := range c.Ensures {
 				g.obls = append(g.obls, Obl{Name: fmt.Sprintf("ensures[%s].reachable", clauseName(e, i)), Kind: "cover", Pc: anyOf(retReach[i]), Goal: "false", Cover: true, Line: c.Line})
+			}
+			// a loop that has invariants and an edge leaving it must be left on some path (an invariant
+			// that contradicts the exit condition makes everything after the loop vacuous)
+			var ks []int
+			for k := range loopExit {
+				ks = append(ks, k)
+			}
+			sort.Ints(ks)
+			for _, k := range ks {
+				if len(c.Invs[k]) > 0 {
+					g.obls = append(g.obls, Obl{Name: fmt.Sprintf("loop%d.exit.reachable", k), Kind: "cover", Pc: anyOf(loopExit[k]), Goal: "false", Cover: true, Line: c.Line})
+				}
 			}
 			for i, cp := range c.CallPre {
 				if g.clauseBound[fmt.Sprintf("callpre#%d", i)] && len(cpReach[i]) > 0 {
@@ -434,7 +447,9 @@ func (g *Gen) lookupName(st *State, name string, env map[string]Val) Val {
 		if m, ok := g.fn.Pkg.Members[name]; ok {
 			if gl, ok := m.(*ssa.Global); ok {
 				key := globKey(gl)
-				return g.globalVal(st, key, gl.Type().(*types.Pointer).Elem())
+				v := g.globalVal(st, key, gl.Type().(*types.Pointer).Elem())
+				g.constGlobalFacts(st, gl, v)
+				return v
 			}
 			if cn, ok := m.(*ssa.NamedConst); ok {
 				return g.val(st, cn.Value)
@@ -575,7 +590,11 @@ func (g *Gen) fieldOf(st *State, base, field string, env map[string]Val) Val {
 			if mt, ok := ft.Underlying().(*types.Map); ok {
 				cur = g.mapFromRef(st, e, mt, ft)
 			}
-			if _, ok := ft.Underlying().(*types.Slice); ok {
+			_, isSliceField := ft.Underlying().(*types.Slice)
+			if isStringType(ft) && !g.opaqueStr {
+				isSliceField = true // strings are byte slices unless the function runs in opaque-string mode
+			}
+			if isSliceField {
 				// slice-typed field: reference, offset and length live in three arrays (instr.go heapRead)
 				part := func(sfx string) string {
 					kk := key + sfx
@@ -593,6 +612,13 @@ func (g *Gen) fieldOf(st *State, base, field string, env map[string]Val) Val {
 				cur = Val{Ref: e, Off: off, Len: ln, Kind: "slice", Ty: ft}
 				if isOld {
 					cur.Heap = g.entryHs // elements are read from the entry version of the element arrays
+				}
+				if isStringType(ft) {
+					hs := g.hsGet(st)
+					if isOld {
+						hs = g.entryHs
+					}
+					cur = Val{T: fmt.Sprintf("(select %s %s)", hs, e), Off: off, Len: ln, Kind: "str", Ty: ft}
 				}
 			}
 			if _, ok := ft.Underlying().(*types.Pointer); ok {
